@@ -1,4 +1,4 @@
-import OrdModel.Proofs.IndexRunemintEtch
+import OrdModel.Proofs.IndexRunemintChain
 import OrdModel.Proofs.IndexRunemintCommit
 /-!
 # C11 — Only valid etchings create runes, with unique names, IDs and numbers
@@ -22,34 +22,8 @@ theorem c11_etched_named_iff (st st' : State) (blk : Block) (t : Nat) (tx : Tx) 
     (rune : Nat) (he : etchingOf art = some (some rune)) (id : RuneId) (r : Nat) :
     etched st blk t tx art = .ok (st', some (id, r)) ↔
       (st' = st ∧ id = ⟨blk.height, t⟩ ∧ r = rune ∧ blk.minimumRune ≤ rune ∧ rune < RESERVED ∧
-        AL.get st.rune2id rune = none ∧ txCommitsToRune blk.height rune tx.inputs = .ok true) := by
-  rw [etched_named st blk t tx art rune he]
-  by_cases hbad : rune < blk.minimumRune ∨ rune ≥ RESERVED ∨ AL.contains st.rune2id rune = true
-  · rw [if_pos hbad]
-    constructor
-    · intro h; simp at h
-    · rintro ⟨_, _, _, h1, h2, h3, _⟩
-      rcases hbad with h | h | h
-      · omega
-      · omega
-      · simp [AL.contains, h3] at h
-  · rw [if_neg hbad]
-    have hb : blk.minimumRune ≤ rune ∧ rune < RESERVED ∧ AL.get st.rune2id rune = none := by
-      refine ⟨by omega, by omega, ?_⟩
-      cases hg : AL.get st.rune2id rune with
-      | none => rfl
-      | some v => exact absurd (Or.inr (Or.inr (by simp [AL.contains, hg]))) hbad
-    cases hc : txCommitsToRune blk.height rune tx.inputs with
-    | panic s => simp
-    | err e => simp
-    | ok b =>
-      cases b with
-      | false => simp
-      | true =>
-        simp only [Outcome.ok.injEq, Prod.mk.injEq, Option.some.injEq]
-        constructor
-        · rintro ⟨rfl, rfl, rfl⟩; exact ⟨rfl, rfl, rfl, hb.1, hb.2.1, hb.2.2, trivial⟩
-        · rintro ⟨rfl, rfl, rfl, _⟩; exact ⟨rfl, rfl, rfl⟩
+        AL.get st.rune2id rune = none ∧ txCommitsToRune blk.height rune tx.inputs = .ok true) :=
+  etched_named_iff st st' blk t tx art rune he id r
 
 /-- **Commitment, soundness** (no assumption): if the check succeeds, some input's tapscript
 pushes `commitment rune` and the node says that input spends a taproot output of a transaction
@@ -125,5 +99,99 @@ theorem c11_commitment (n : Nat) (hn : n < 2 ^ 128) :
     exact this
 
 example : commitment 65536 = [0, 0, 1] := by decide
+
+
+/-! ### in the context of a block and a chain (`RInv`, `ValidEtching`, `etchedName` are defined in
+`Proofs/IndexRunemintInv.lean`; `ValidEtching st blk tx art` is the disjunction of the documented
+conditions: unnamed runestone etching, or named with `minimum ≤ name < RESERVED`, name not in
+`rune2id`, commitment check true; never for an artifact without (named) etching) -/
+
+/-- **A rune entry appears at `(H, t)` iff transaction `t` carries a valid etching.**  While
+block `H` is indexed (`RInv st H t`), after transaction `t`: either its artifact has a valid
+etching — then the entry with id `(H, t)` exists, has the etched (or reserved) name, the next
+rune number `st.runes`, zero mints, this transaction as etching, `rune2id` maps the name back to
+`(H, t)` and the rune count is one higher — or it has none, and then no entry `(H, t)` exists
+and count and `rune2id` are unchanged.  (Entries of other ids are not created or removed:
+`c10_tx_mint_counter`.) -/
+theorem c11_tx_creates_iff {st : State} {H t : Nat} (hinv : RInv st H t) (blk : Block) (tx : Tx)
+    (bb : Balances) (st' : State) (bb' : Balances) (evs : List Event) (hH : blk.height = H)
+    (ht : t < 2 ^ 32) (hr : indexRunesTx st blk t tx bb = .ok (st', bb', evs)) :
+    ((∃ e, AL.get st'.runeEntries ⟨H, t⟩ = some e) ↔ ∃ art, tx.artifact = some art ∧ ValidEtching st blk tx art) ∧
+    (∀ art, tx.artifact = some art → ValidEtching st blk tx art →
+      st'.runes = st.runes + 1 ∧
+      ∃ e, AL.get st'.runeEntries ⟨H, t⟩ = some e ∧ e.rune = etchedName blk t art ∧ e.number = st.runes ∧
+        e.mints = 0 ∧ e.etching = tx.txid ∧ AL.get st'.rune2id e.rune = some ⟨H, t⟩) ∧
+    ((∀ art, tx.artifact = some art → ¬ ValidEtching st blk tx art) →
+      st'.runes = st.runes ∧ st'.rune2id = st.rune2id) := by
+  rcases (tx_step hinv blk tx bb st' bb' evs hH (by simpa using ht) hr).2.2 with
+    ⟨art, ha, hv, hn, e, he⟩ | ⟨hnv, hnone, hn, hr2⟩
+  · refine ⟨⟨fun _ => ⟨art, ha, hv⟩, fun _ => ⟨e, he.1⟩⟩, ?_, ?_⟩
+    · intro art' ha' _
+      have : art' = art := by rw [ha] at ha'; exact (Option.some.inj ha').symm
+      subst this
+      exact ⟨hn, e, he⟩
+    · intro hnv; exact absurd hv (hnv art ha)
+  · refine ⟨⟨fun ⟨e, he⟩ => by rw [hnone] at he; simp at he, fun ⟨art, ha, hv⟩ => absurd hv (hnv art ha)⟩, ?_, ?_⟩
+    · intro art ha hv; exact absurd hv (hnv art ha)
+    · intro _; exact ⟨hn, hr2⟩
+
+/-- the conditions, spelled out -/
+example (st : State) (blk : Block) (tx : Tx) (eds : List Edict) (e : Etching) (m : Option RuneId) (p : Option Nat)
+    (rune : Nat) (he : e.rune = some rune) :
+    ValidEtching st blk tx (.runestone eds (some e) m p) ↔
+      (blk.minimumRune ≤ rune ∧ rune < RESERVED ∧ AL.get st.rune2id rune = none ∧
+        txCommitsToRune blk.height rune tx.inputs = .ok true) := by
+  simp [ValidEtching, etchingOf, he]
+
+example (st : State) (blk : Block) (tx : Tx) (m : Option RuneId) : ¬ ValidEtching st blk tx (.cenotaph none m) := by
+  simp [ValidEtching, etchingOf]
+
+/-- **Unique names, ids and numbers in every reachable state** of a chain of consecutive blocks:
+an entry's id is `(etching block, 32-bit tx index)` with block below the current height;
+`rune2id` and `runeEntries` are mutually inverse (so names are unique); numbers are
+`0, 1, …, runes − 1` in creation order and `runes` counts the entries; a name is below `RESERVED`
+or is the reserved name of its own id.  `_partial`: assumes `FrameOK cfg` (the sat /
+inscription / address part of a block leaves the rune tables alone; unconditional for a
+rune-only index, `c11_tables_rune_only`). -/
+theorem c11_tables_partial (cfg : Cfg) (hfr : FrameOK cfg) (chain : List Block) (st : State)
+    (evs : List Event) (hr : run cfg chain = .ok (st, evs)) (hc : ChainOK chain) :
+    (∀ id e, AL.get st.runeEntries id = some e →
+      e.block = id.block ∧ id.block < chain.length ∧ id.tx < 2 ^ 32 ∧
+      AL.get st.rune2id e.rune = some id ∧
+      (e.rune < RESERVED ∨ e.rune = reservedRune id.block id.tx)) ∧
+    (∀ r id, AL.get st.rune2id r = some id → ∃ e, AL.get st.runeEntries id = some e ∧ e.rune = r) ∧
+    (∀ id id' e e', AL.get st.runeEntries id = some e → AL.get st.runeEntries id' = some e' →
+      e.rune = e'.rune → id = id') ∧
+    st.runeEntries.map (fun p => p.2.number) = List.range st.runes ∧
+    st.runeEntries.length = st.runes := by
+  have hinv := run_inv cfg hfr chain st evs hr hc
+  refine ⟨?_, hinv.bwd, ?_, hinv.numbers, ?_⟩
+  · intro id e hg
+    obtain ⟨h1, h2, h3⟩ := hinv.ids id e hg
+    refine ⟨h1, ?_, by simpa using h2, hinv.fwd id e hg, hinv.names id e hg⟩
+    unfold idBefore at h3; omega
+  · intro id id' e e' hg hg' hrune
+    have h1 := hinv.fwd id e hg
+    have h2 := hinv.fwd id' e' hg'
+    rw [hrune, h2] at h1
+    exact (Option.some.inj h1).symm
+  · have := congrArg List.length hinv.numbers
+    simpa using this
+
+theorem c11_tables_rune_only (cfg : Cfg)
+    (hcfg : cfg.indexInscriptions = false ∧ cfg.indexAddresses = false ∧ cfg.indexSats = false)
+    (chain : List Block) (st : State) (evs : List Event) (hr : run cfg chain = .ok (st, evs))
+    (hc : ChainOK chain) :
+    (∀ id id' e e', AL.get st.runeEntries id = some e → AL.get st.runeEntries id' = some e' →
+      e.rune = e'.rune → id = id') ∧
+    st.runeEntries.map (fun p => p.2.number) = List.range st.runes :=
+  let h := c11_tables_partial cfg (Or.inl (by simp [hcfg.1, hcfg.2.1, hcfg.2.2])) chain st evs hr hc
+  ⟨h.2.2.1, h.2.2.2.1⟩
+
+/-- **One block step, unconditionally**: `indexRunesBlock` preserves the table invariant. -/
+theorem c11_block_preserves {st : State} {H : Nat} (hinv : RInv st H 0) (blk : Block) (st' : State)
+    (evs : List Event) (hH : blk.height = H) (hlen : blk.txs.length ≤ 2 ^ 32)
+    (hr : indexRunesBlock st blk = .ok (st', evs)) : RInv st' (H + 1) 0 :=
+  block_inv hinv blk st' evs hH (by simpa using hlen) hr
 
 end Ord.Index.Runemint
